@@ -4,6 +4,7 @@ package main
 
 import (
 	"fmt"
+	"os"
 	"go/token"
 	"go/types"
 	"strings"
@@ -150,6 +151,13 @@ func (e *Engine) lookupName(name string, se *SpecEnv) (Val, bool) {
 	if v, ok := se.vars[name]; ok {
 		return v, true
 	}
+	if se.fr != nil && se.fr.fn != nil {
+		if u := e.uniqueValues(se.fr.fn)[name]; u != nil {
+			if v, ok := se.fr.regs[u]; ok {
+				return v, true
+			}
+		}
+	}
 	if v, ok := se.st.ghost[name]; ok {
 		return v, true
 	}
@@ -188,6 +196,9 @@ func (e *Engine) evalSpec(x *Expr, se *SpecEnv) Val {
 		return Val{T: types.Typ[types.UntypedNil], L: []Term{IntLit(0)}}
 	case "ident":
 		if v, ok := e.lookupName(x.Name, se); ok {
+			if os.Getenv("GOVC_TRACE_NAMES") != "" {
+				fmt.Fprintf(os.Stderr, "[name] %s -> %v\n", x.Name, v)
+			}
 			return v
 		}
 		if l, ok := se.lets[x.Name]; ok {
@@ -248,15 +259,15 @@ func (e *Engine) evalSpec(x *Expr, se *SpecEnv) Val {
 		}
 		body := e.evalBool(x.Args[0], inner)
 		pat := ""
-		if len(x.Trig) > 0 {
+		for _, grp := range x.Trigs {
 			var ps []string
-			for _, tr := range x.Trig {
+			for _, tr := range grp {
 				tv := e.evalSpec(tr, inner)
 				ps = append(ps, tv.L[0].S)
 			}
-			pat = " :pattern (" + strings.Join(ps, " ") + ")"
+			pat += " :pattern (" + strings.Join(ps, " ") + ")"
 		}
-		if pat == "" && x.Op == "forall" {
+		if pat == "" {
 			// automatic trigger: one idx(·) term per bound variable, when every variable indexes an element
 			var ps []string
 			ok := true
